@@ -526,7 +526,14 @@ func cmdCheck(args []string) int {
 		}
 		boundedInfo = append(boundedInfo, info)
 		if !ok {
-			if kf, isKnown := matchKnown(oname, nil, ""); isKnown {
+			// the hits of a bounded clause are the histories it reports as violating; a listing with only= covers exactly those
+			var hits []string
+			for _, l := range strings.Split(out, "\n") {
+				if i := strings.Index(l, "violated"); i >= 0 {
+					hits = append(hits, strings.ReplaceAll(strings.TrimSpace(l[i:]), "; ", ", "))
+				}
+			}
+			if kf, isKnown := matchKnown(oname, &Obligation{Static: "failed"}, strings.Join(hits, "; ")); isKnown {
 				if !printedKnown[kf.Text] {
 					printedKnown[kf.Text] = true
 					fmt.Printf("KNOWN-FINDING: %s\n", kf.Text)
